@@ -88,25 +88,35 @@ class EchoDatagram(AsyncDatagramRequestHandler):
         await client.send_packet(request)
 
 
-def make_backend(world: World, listeners: list) -> AsyncIOBackend:
+def make_backend(world: World, listeners: list, nlisten: int = 1) -> AsyncIOBackend:
+    """The real AsyncIOBackend, except that listeners are built on FakeSockets (same shape as the real methods: one await
+    for the address resolution, sockets opened synchronously, UDP endpoints created one after the other)."""
+
     class Backend(AsyncIOBackend):
         __slots__ = ()
 
         async def create_tcp_listeners(self, host: Any, port: int, backlog: int, *, reuse_port: bool = False) -> Any:
             await asyncio.sleep(0)  # the real one awaits the address resolution
-            sock = world.listener_socket()
-            sock.tag = f"listener{len(listeners)}"
-            listeners.append(sock)
-            return [ListenerSocketAdapter(self, sock, AcceptedSocketFactory())]
+            socks = []
+            for _ in range(nlisten):
+                sock = world.listener_socket(local=("127.0.0.1", 50000 + len(listeners)))
+                sock.tag = f"listener{len(listeners)}"
+                listeners.append(sock)
+                socks.append(sock)
+            factory = AcceptedSocketFactory()
+            return [ListenerSocketAdapter(self, sock, factory) for sock in socks]
 
         async def create_udp_listeners(self, host: Any, port: int, *, reuse_port: bool = False) -> Any:
             await asyncio.sleep(0)
             loop = asyncio.get_running_loop()
-            sock = world.dgram_socket(peer=None)
-            sock.tag = f"listener{len(listeners)}"
-            listeners.append(sock)
-            transport, protocol = await loop.create_datagram_endpoint(lambda: DatagramListenerProtocol(loop=loop), sock=sock)
-            return [DatagramListenerSocketAdapter(self, transport, protocol)]
+            socks = []
+            for _ in range(nlisten):
+                sock = world.dgram_socket(peer=None, local=("127.0.0.1", 50000 + len(listeners)))
+                sock.tag = f"listener{len(listeners)}"
+                listeners.append(sock)
+                socks.append(sock)
+            made = [await loop.create_datagram_endpoint(lambda: DatagramListenerProtocol(loop=loop), sock=sock) for sock in socks]
+            return [DatagramListenerSocketAdapter(self, transport, protocol) for transport, protocol in made]
 
     return Backend()
 
@@ -163,7 +173,7 @@ def run_async(ctx: Ctx, cfg: dict) -> dict:
     world = World(ctx, horizon=ASYNC_HORIZON)
     listeners: list = []
     served: set = set()
-    backend = make_backend(world, listeners)
+    backend = make_backend(world, listeners, cfg.get("nlisten", 1))
     ops = [Op(i, o) for i, o in enumerate(seq)]
     st: dict[str, Any] = {"tick": 0, "next": 0, "streak": 0, "done": None, "loop": None, "server": None, "finished": False, "client": None,
                           "client_state": "none", "tasks": []}
@@ -433,7 +443,7 @@ def async_sequences(tier: str) -> list[str]:
 def run_async_job(job: dict, res: JobResult) -> None:
     bound = job["bound"]
     for seq in job["seqs"]:
-        cfg = {"kind": job["kind"], "ops": seq}
+        cfg = {"kind": job["kind"], "ops": seq, "nlisten": job["nlisten"]}
         found: dict[str, tuple[Ctx, dict]] = {}
         classes: set = set()
 
@@ -448,7 +458,7 @@ def run_async_job(job: dict, res: JobResult) -> None:
             res.count("async loop iterations", obs["iterations"])
             classes.add(oc)
             if any(ctx.choices):
-                res.nontrivial.add(digest(("async", job["kind"], seq, oc, obs["final"], obs["client"])))
+                res.nontrivial.add(digest(("async", job["kind"], job["nlisten"], seq, oc, obs["final"], obs["client"])))
             for b in bad:
                 res.outcome("VIOLATION async " + b)
                 if b not in found or len(ctx.choices) < len(found[b][0].choices):
@@ -461,11 +471,11 @@ def run_async_job(job: dict, res: JobResult) -> None:
         if stats["cap_hit"]:
             res.caps.append(f"async max_runs {job['kind']} {seq}")
         for b, (ctx, obs) in found.items():
-            if not _replays_identically(lambda c: run_async(c, cfg), ctx.choices, res, f"async/{job['kind']}/{seq}"):
+            if not _replays_identically(lambda c: run_async(c, cfg), ctx.choices, res, f"async/{job['kind']}/{seq}/{job['nlisten']}"):
                 continue
             res.violations.append(Violation(
                 f"async/{job['kind']}/{b.split(':')[0]}",
-                f"Async{job['kind'].upper()}NetworkServer calls={seq} ({_outcome_class(obs)}): {b}; final={obs['final']} choices={ctx.choices}",
+                f"Async{job['kind'].upper()}NetworkServer listeners={job['nlisten']} calls={seq} ({_outcome_class(obs)}): {b}; final={obs['final']} choices={ctx.choices}",
                 {"part": "async", "cfg": cfg, "choices": list(ctx.choices), "labels": [p[1] for p in ctx.points]},
             ))
         if len(res.samples) < 3 and len(seq) >= 3 and len(classes) > 1:
@@ -497,18 +507,19 @@ def _replays_identically(run: Any, choices: list[int], res: JobResult, what: str
 
 def jobs(tier: str) -> list[dict]:
     out: list[dict] = []
-    bound = 2 if tier == "quick" else 3
     seqs = async_sequences(tier)
     # longest first (they dominate the cost), dealt round-robin into chunks
     seqs.sort(key=lambda s: (-len(s), s))
-    nchunks = 40 if tier == "quick" else 120
+    nchunks = 12 if tier == "quick" else 60
     for kind in ("tcp", "udp"):
-        chunks: list[list[str]] = [[] for _ in range(nchunks)]
-        for i, s in enumerate(seqs):
-            chunks[i % nchunks].append(s)
-        for k, ch in enumerate(chunks):
-            if ch:
-                out.append({"part": "async", "kind": kind, "seqs": ch, "bound": bound, "tier": tier, "chunk": k})
+        for nlisten in (1, 2):
+            chunks: list[list[str]] = [[] for _ in range(nchunks)]
+            for i, s in enumerate(seqs):
+                chunks[i % nchunks].append(s)
+            for k, ch in enumerate(chunks):
+                if ch:
+                    # bound = number of calls: every call at every boundary (complete for these sequences)
+                    out.append({"part": "async", "kind": kind, "nlisten": nlisten, "seqs": ch, "bound": 5, "tier": tier, "chunk": k})
     return out
 
 
